@@ -26,7 +26,7 @@ REQUIRED = ["angle-class.small-angle(|a|<=0.05)", "angle-class.general-angle", "
             "contract.translate_rotate.GoalRegion", "contract.translate_rotate.containment-probe",
             "part.Trajectory-in-DynamicObstacle",
             "part.Trajectory-in-Scenario", "part.LaneletNetwork-in-Scenario", "part-with-derived-occupancies",
-            "class.NetworkSharedArrays", "class.IntDtype"]
+            "class.NetworkSharedArrays", "class.IntDtype", "class.LaneletWithPointlessStopLine"]
 ASSUMPTIONS = ["tolerance 1e-9*(1+|p|+|t|) on points, 1e-8 on angles (mod 2pi)",
                "obstacle history lists and areas are not in the statement's list and are not compared"]
 SHARDS = {"quick": 4, "thorough": 16}
@@ -36,7 +36,8 @@ CLASSES = ["Rectangle", "Circle", "Polygon", "ShapeGroup", "InitialState", "KSSt
            "ExtendedPMState", "PMState", "CustomState", "UncertainState", "Trajectory", "TrajectoryPM", "Occupancy",
            "SetBasedPrediction", "TrajectoryPrediction", "StaticObstacle", "DynamicObstacle", "PhantomObstacle",
            "EnvironmentObstacle", "StopLine", "Lanelet", "TrafficSign", "TrafficLight", "LaneletNetwork", "Scenario",
-           "GoalRegion", "PlanningProblem", "PlanningProblemSet", "NetworkSharedArrays", "IntDtype"]
+           "GoalRegion", "PlanningProblem", "PlanningProblemSet", "NetworkSharedArrays", "IntDtype",
+           "LaneletWithPointlessStopLine"]
 
 
 def angle_pool(rng):
@@ -107,6 +108,12 @@ def make(name, G, rng):
         sc.add_objects(G.phantom_obstacle(1003))
         sc.add_objects(G.environment_obstacle(1004))
         return sc
+    if name == "LaneletWithPointlessStopLine":
+        # start and end of a stop line are optional
+        from commonroad.common.common_lanelet import LineMarking, StopLine
+        la = G.lanelet(3, full=True)
+        la.stop_line = StopLine(None, None, LineMarking.SOLID, {5}, None)
+        return la
     if name == "NetworkSharedArrays":
         # objects that were built from the SAME array objects (adjacent lanelets sharing their common boundary, a sign and
         # a light on one pole): every one of them is moved exactly once
